@@ -135,6 +135,9 @@ func runRadius(o *Out, r *rand.Rand, thorough bool, _ []string) {
 	mn := newMemNet()
 	hist := startNode(mn, r, nodeOpts{ip: net.IP{34, 81, 1, 1}, port: 9700, utpLimit: 10})
 	state := startNode(mn, r, nodeOpts{ip: net.IP{34, 81, 1, 2}, port: 9701, utpLimit: 10, proto: portalwire.State})
+	// full buckets: most newcomers then become replacements, which count as members for the radius cache
+	fillTable(hist, r, 250, false)
+	fillTable(state, r, 250, false)
 	for s := 0; s < seqs; s++ {
 		nd, net_ := hist, "history"
 		if r.Intn(2) == 0 {
